@@ -53,7 +53,8 @@ PLANS = {
     },
     "C03": {
         "quick": [ex("peg2", "peg", 2, 3), ex("repT", "repT", 1, 3, alphabet=["a", ","], modes=["E"]), ex("err2", "err", 2, 3, etys=ALL_ETYS),
-                  ex("rcv2", "rcv", 2, 3), rec("pegR", "peg", 1000, 8, 8, etys=ALL_ETYS), rec("lblR", "lbl", 1000, 8, 8, etys=ALL_ETYS)],
+                  ex("rcv2", "rcv", 2, 3, etys=["rich", "empty"]), rec("pegR", "peg", 1000, 8, 8, etys=ALL_ETYS), rec("lblR", "lbl", 1000, 8, 8, etys=ALL_ETYS),
+                  rec("rcvR", "rcv", 800, 8, 8, etys=ALL_ETYS)],
         "thorough": [ex("peg3", "peg", 3, 3), ex("repT", "repT", 1, 4, alphabet=["a", ","], timeout=3000), ex("err3", "err", 3, 3, etys=ALL_ETYS),
                      ex("rcv3", "rcv", 3, 3), rec("pegR", "peg", 20000, 10, 10, etys=ALL_ETYS), rec("lblR", "lbl", 20000, 10, 10, etys=ALL_ETYS)],
     },
@@ -64,8 +65,8 @@ PLANS = {
     },
     "C05": {
         "quick": [ex("emit4", "emit", 4, 3), ex("rcvE", "rcvE", 1, 4, alphabet=["a", "b", "!"], modes=["E"]), ex("rcv3", "rcv", 3, 3, modes=["E"]),
-                  ex("progT", "progT", 1, 3, alphabet=["a", "b", "!"], modes=["E"]),
-                  rec("emitR", "emit", 3000, 8, 8), rec("rcvR", "rcv", 1500, 8, 8)],
+                  ex("progT", "progT", 1, 3, alphabet=["a", "b", "!"], modes=["E"]), ex("emit3e", "emit", 3, 3, etys=["empty", "simple"], modes=["E"]),
+                  rec("emitR", "emit", 3000, 8, 8), rec("rcvR", "rcv", 1500, 8, 8, etys=ALL_ETYS)],
         "thorough": [ex("emit4", "emit", 4, 4), ex("rcvE", "rcvE", 1, 6, alphabet=["a", "b", "!"]), ex("rcv3", "rcv", 3, 4), ex("rcvT", "rcvT", 1, 5, alphabet=["a", "b", "!"]),
                      rec("emitR", "emit", 40000, 10, 10), rec("rcvR", "rcv", 30000, 10, 10)],
     },
@@ -129,7 +130,7 @@ PLANS = {
                      rec("pegRk", "peg", 30000, 10, 10, kinds=ALL_KINDS), rec("spngRk", "spng", 20000, 10, 10, kinds=["mapped", "mstream", "stream", "wctx", "mapspan", "io"])],
     },
     "C08": {
-        "quick": [ex("rcv3", "rcv", 3, 3), ex("rcvT", "rcvT", 1, 4, alphabet=["a", "b", "!"]),
+        "quick": [ex("rcv3", "rcv", 3, 3), ex("rcv2e", "rcv", 2, 3, etys=["empty", "cheap"], modes=["E"]), ex("rcvT", "rcvT", 1, 4, alphabet=["a", "b", "!"]),
                   ex("rcvN", "rcvN", 1, 5, alphabet=["a", "(", ")", "["], modes=["E"], invariants=DEFAULT_INVARIANTS + ["TextRefines"]), rec("rcvR", "rcv", 1500, 8, 8)],
         "thorough": [ex("rcv3", "rcv", 3, 4), ex("rcvT", "rcvT", 1, 6, alphabet=["a", "b", "!"]),
                      ex("rcvN", "rcvN", 1, 6, alphabet=["a", "(", ")", "[", "]"], invariants=DEFAULT_INVARIANTS + ["TextRefines"]), rec("rcvR", "rcv", 30000, 10, 10)],
